@@ -518,6 +518,7 @@ func (r *SCTPTransport) generateAndSetDataChannelID(dtlsRole DTLSRole, idOut **u
 		if _, ok := r.dataChannelIDsUsed[id]; ok {
 			continue
 		}
+		verifYield("dcid:generate:locked")
 		*idOut = &id
 		r.dataChannelIDsUsed[id] = struct{}{}
 
